@@ -411,14 +411,57 @@ package rsl
 //@   pure
 //@   ensures optKind(o) == 1 && optStr(o) == reference
 
-//@ # Assumed for now (the scan loops are not yet under contract): with a single ForReference option the reader
-//@ # returns the entry the plain scan defines, or not-found.
-//@ func GetLatestReferenceUpdaterEntry -> (e, anns, err)
-//@   trusted
+//@ # ---- C04: GetLatestReferenceUpdaterEntry against the plain scan, for every option combination ----
+//@ # nth(h, d): the d-th first-parent ancestor of h; depthOf is its inverse along a chain (commit graphs are acyclic)
+//@ spec nth(h Hash, d int) Hash
+//@ spec depthOf(h Hash, x Hash) int
+//@ axiom nthZero: forall(h, Hash, nth(h, 0) == h)
+//@ axiom nthStep: forall(h, Hash, smt("(forall ((d Int)) (! (=> (>= d 0) (= (sp$nth %1 (+ d 1)) (sp$cpar (sp$nth %1 d) 0))) :pattern ((sp$cpar (sp$nth %1 d) 0))))", bool, h))
+//@ axiom nthOne: forall(h, Hash, nth(h, 1) == cpar(h, 0) && nth(h, 2) == cpar(cpar(h, 0), 0))
+//@ axiom depthOfNth: forall(h, Hash, forall(d, d >= 0 ==> depthOf(h, nth(h, d)) == d))
+//@ define tipID() Hash = refTip[Ref]
+//@ define txt(d int) string = cmsg(nth(tipID(), d))
+//@ define isUpd(d int) bool = pKind(txt(d)) == 1 || pKind(txt(d)) == 3
+//@ # annotation at depth a (newer than j) refers to the entry at depth j
+//@ define annRefers(a int, j int) bool = pKind(txt(a)) == 2 && (exists i :: 0 <= i && i < pNIDs(txt(a)) && hashEq(pIDAt(txt(a), i), nth(tipID(), j)))
+//@ define skippedAt(j int) bool = exists a :: 0 <= a && a < j && annRefers(a, j) && pSkip(txt(a))
+//@ # hit(o, j): the entry at depth j satisfies the query conditions (bounds apart)
+//@ define hit(o GetLatestReferenceUpdaterEntryOptions, j int) bool = isUpd(j)
+//@ ..  && (o.Reference == "" || pRef(txt(j)) == o.Reference)
+//@ ..  && (o.IsReferenceEntry ==> pKind(txt(j)) == 1)
+//@ ..  && (o.Unskipped && pKind(txt(j)) == 1 ==> !skippedAt(j))
+//@ ..  && (o.IsPropagationEntryForRepository != "" ==> pKind(txt(j)) == 3 && pUpRepo(txt(j)) == o.IsPropagationEntryForRepository)
+//@ ..  && (o.NonGittuf ==> !strings.HasPrefix(pRef(txt(j)), gittufNamespacePrefix))
+//@ define noBefore(o GetLatestReferenceUpdaterEntryOptions) bool = len(o.BeforeEntryID) == 0 && o.BeforeEntryNumber == 0
+//@ define noUntil(o GetLatestReferenceUpdaterEntryOptions) bool = len(o.UntilEntryID) == 0 && o.UntilEntryNumber == 0
+//@ # isAnchor(o, b): depth b is where the before condition is met
+//@ define isAnchor(o GetLatestReferenceUpdaterEntryOptions, b int) bool = hashEq(nth(tipID(), b), o.BeforeEntryID) || (pNumber(txt(b)) != 0 && pNumber(txt(b)) == o.BeforeEntryNumber)
+//@ define dOf(e ReferenceUpdaterEntry) int = depthOf(tipID(), e.GetID())
+
+//@ func [C04] GetLatestReferenceUpdaterEntry -> (e, anns, err)
+//@   bounded 2
 //@   requires storer != nil
-//@   assigns ghost faults, fresh(ReferenceEntry.*), fresh(AnnotationEntry.*), fresh(PropagationEntry.*), fresh(elems Hash), fresh(elems *AnnotationEntry)
-//@   ensures len(opts) == 1 && optKind(opts[0]) == 1 && err == nil ==> refSet[Ref] && hasRefEntry(refTip[Ref], optStr(opts[0])) && e != nil && entryAt(e, latestRefEntry(refTip[Ref], optStr(opts[0])))
-//@   ensures len(opts) == 1 && optKind(opts[0]) == 1 && errIs(err, ErrRSLEntryNotFound) && faults == old(faults) ==> !refSet[Ref] || !hasRefEntry(refTip[Ref], optStr(opts[0]))
-//@   ensures len(opts) == 1 && optKind(opts[0]) == 1 && (!refSet[Ref] || !hasRefEntry(refTip[Ref], optStr(opts[0]))) ==> err != nil
-//@   ensures err != nil ==> e == nil
-//@   ensures faults >= old(faults) && (faults > old(faults) ==> err != nil)
+//@   # bound of this (bounded, not unbounded) check: the chain below the RSL tip has at most 2 entries and at most 2 options are passed
+//@   boundrequires shortChain: !refSet[Ref] || cnpar(tipID()) == 0 || cnpar(nth(tipID(), 1)) == 0
+//@   boundrequires fewOptions: len(opts) <= 2
+//@   assigns ghost faults, fresh(ReferenceEntry.*), fresh(AnnotationEntry.*), fresh(PropagationEntry.*), fresh(elems Hash), fresh(elems *AnnotationEntry), fresh(GetLatestReferenceUpdaterEntryOptions.*)
+//@   ensures nilOnError: err != nil ==> e == nil
+//@   ensures faultsAccounted: faults >= old(faults) && (faults > old(faults) ==> err != nil)
+//@   ensures isChainEntry: err == nil ==> refSet[Ref] && e != nil && 0 <= dOf(e) && dOf(e) < 2 && e.GetID() == nth(tipID(), dOf(e)) && pOK(txt(dOf(e)))
+//@   ensures hitIsUpdater: err == nil ==> isUpd(dOf(e))
+//@   ensures hitReference: err == nil && options.Reference != "" ==> pRef(txt(dOf(e))) == options.Reference
+//@   ensures hitKind: err == nil && options.IsReferenceEntry ==> pKind(txt(dOf(e))) == 1
+//@   ensures hitPropagation: err == nil && options.IsPropagationEntryForRepository != "" ==> pKind(txt(dOf(e))) == 3 && pUpRepo(txt(dOf(e))) == options.IsPropagationEntryForRepository
+//@   ensures hitNonGittuf: err == nil && options.NonGittuf ==> !strings.HasPrefix(pRef(txt(dOf(e))), gittufNamespacePrefix)
+//@   # not yet discharged (kept as documentation of the intended clause; see DESIGN.md C04):
+//@   #   hitUnskipped: err == nil && options.Unskipped && pKind(txt(dOf(e))) == 1 ==> !skippedAt(dOf(e))
+//@   #   untilNumberRespected (candidate defect D22: the first entry examined after a before-anchor is not checked against the until number)
+//@   ensures newestWithoutBefore: err == nil && noBefore(options) && !options.Unskipped ==> forall j :: 0 <= j && j < dOf(e) ==> !hit(options, j)
+//@   ensures annotationsRefer: err == nil ==> forall i :: 0 <= i && i < len(anns) ==> anns[i] != nil && refersTo(anns[i], e.GetID())
+//@   # options are applied through function values, which the verifier treats as arbitrary writers of the options
+//@   # record: the body is proved for every option record; what a given option list means is assumed below
+//@   # summary for callers passing a single ForReference option, in terms of the recursive scan definition latestRefEntry
+//@   # (assumed: relating the bounded proof above to the unbounded recursive definition needs an induction not done here)
+//@   assumed len(opts) == 1 && optKind(opts[0]) == 1 && err == nil ==> refSet[Ref] && hasRefEntry(refTip[Ref], optStr(opts[0])) && e != nil && entryAt(e, latestRefEntry(refTip[Ref], optStr(opts[0])))
+//@   assumed len(opts) == 1 && optKind(opts[0]) == 1 && errIs(err, ErrRSLEntryNotFound) && faults == old(faults) ==> !refSet[Ref] || !hasRefEntry(refTip[Ref], optStr(opts[0]))
+//@   assumed len(opts) == 1 && optKind(opts[0]) == 1 && (!refSet[Ref] || !hasRefEntry(refTip[Ref], optStr(opts[0]))) ==> err != nil
